@@ -305,13 +305,17 @@ class extract_visitor(NodeVisitor):
             items = node.items
 
         for it in items:
+            # the context expression first: a name it binds itself (walrus) is rebound by the target
+            self.visit(it.context_expr)
             if it.optional_vars:
                 for nn, _idx in get_indexes_for_target(it.optional_vars, [], []):
                     name = nn  # type: ast.Name # type: ignore[assignment]
                     # visible to the following items, not only to the body
                     self.flow.add_name(AssignedName(name.id, get_expr_end(it.context_expr), np(name), node))
+                self.visit(it.optional_vars)
 
-        self.generic_visit(node)
+        for n in node.body:
+            self.visit(n)
 
     visit_AsyncWith = visit_With
 
